@@ -234,12 +234,16 @@ func run(s *kernel.Sim, c *scen.Case) {
 					finish(err)
 					return
 				}
+				if _, err := stU.ReceiveFrame(ctx); err != nil { // the single-frame variant has its own read path
+					finish(err)
+					return
+				}
 				m := message.NewMessageFromStream(stU)
 				_, err := m.GetBytes(ctx, len(payload))
 				finish(err)
 			})
 			s.Go("peer", func() {
-				for i := 0; i < 4; i++ {
+				for i := 0; i < 5; i++ {
 					if peerErr = stP.SendMessage(bg, payload); peerErr != nil {
 						return
 					}
@@ -278,7 +282,7 @@ func run(s *kernel.Sim, c *scen.Case) {
 				_, peerErr = security.NewAuthenticator(mkc(), pr.CS).ClientHandshake(bg)
 			})
 		}
-	case p.Role == "connect":
+	case p.Role == "connect" || p.Role == "connect-sp":
 		ownsConn = true
 		if p.Shape == "resumed" && !establish() {
 			s.Violate("baseline-failed", "establish", "could not establish the session to resume")
@@ -296,7 +300,13 @@ func run(s *kernel.Sim, c *scen.Case) {
 			return ep, nil
 		}
 		s.Go("under-test", func() {
-			cl, err := client.ConnectAndAuthenticateWithConfig(ctx, &client.ClientConfig{Address: "10.0.0.2:9618", Security: mkc()})
+			address := "10.0.0.2:9618"
+			if p.Role == "connect-sp" {
+				// a daemon behind a shared-port endpoint: one more write (the SHARED_PORT_CONNECT request)
+				// on the connection before the handshake, made by another layer of the client
+				address = "<10.0.0.2:9618?sock=daemon_a>"
+			}
+			cl, err := client.ConnectAndAuthenticateWithConfig(ctx, &client.ClientConfig{Address: address, Security: mkc()})
 			if err == nil && cl != nil {
 				defer cl.Close()
 			}
@@ -309,6 +319,16 @@ func run(s *kernel.Sim, c *scen.Case) {
 					return
 				}
 				st := stream.NewStream(conn)
+				if p.Role == "connect-sp" {
+					// (the shared-port front reads the request on a stream of its own: the daemon's handshake starts afresh)
+					m := message.NewMessageFromStream(stream.NewStream(conn))
+					if _, err := m.GetInt32(bg); err != nil {
+						continue
+					}
+					if _, err := m.GetString(bg); err != nil {
+						continue
+					}
+				}
 				_, peerErr = security.NewAuthenticator(mks(), st).ServerHandshake(bg)
 			}
 		})
@@ -464,7 +484,7 @@ var combos = []struct{ shape, role string }{
 	{"claimtobe", "client"}, {"claimtobe", "server"},
 	{"token", "client"}, {"token", "server"},
 	{"resumed", "client"}, {"resumed", "server"},
-	{"claimtobe", "connect"}, {"resumed", "connect"}, {"token", "serveconn"}, {"noauth", "serveconn"},
+	{"claimtobe", "connect"}, {"resumed", "connect"}, {"claimtobe", "connect-sp"}, {"noauth", "connect-sp"}, {"token", "serveconn"}, {"noauth", "serveconn"},
 	{"negfail", "server"}, {"negfail", "client"}, {"negfail", "serveconn"}, {"negfail", "connect"},
 }
 
